@@ -9,4 +9,361 @@ import Mathlib.Tactic.Linarith
 namespace BM.C02.Ieee
 open BM
 
+theorem log2_mul_pow (n k : Nat) (h : n ≠ 0) : Nat.log2 (n * 2 ^ k) = Nat.log2 n + k := by
+  induction k with
+  | zero => simp
+  | succ k ih =>
+    have hne : n * 2 ^ k ≠ 0 := Nat.mul_ne_zero h (by simp)
+    rw [Nat.pow_succ, ← Nat.mul_assoc, Nat.mul_comm _ 2, Nat.log2_two_mul hne, ih]; omega
+
+theorem log2_of_range (x m : Nat) (h1 : 2 ^ m ≤ x) (h2 : x < 2 ^ (m + 1)) : Nat.log2 x = m := by
+  have hx : x ≠ 0 := by have : 0 < 2 ^ m := Nat.pos_of_ne_zero (by simp); omega
+  exact (Nat.log2_eq_iff hx).mpr ⟨h1, h2⟩
+
+theorem log2_lt_of_lt (x m : Nat) (hx : x ≠ 0) (h : x < 2 ^ m) : Nat.log2 x < m :=
+  (Nat.log2_lt hx).mpr h
+
+theorem rne_mul_pow (a q : Nat) : rne (a * 2 ^ q) q = a := by
+  unfold rne
+  have hp : 0 < 2 ^ q := Nat.pos_of_ne_zero (by simp)
+  simp only [Nat.mul_div_cancel _ hp, Nat.mul_mod_left]
+  rw [if_neg]
+  omega
+
+theorem rne_exact' (n q : Nat) (h : 2 ^ q ∣ n) : rne n q = n / 2 ^ q := by
+  obtain ⟨c, rfl⟩ := h
+  have hp : 0 < 2 ^ q := Nat.pos_of_ne_zero (by simp)
+  rw [Nat.mul_comm, rne_mul_pow, Nat.mul_div_cancel _ hp]
+
+theorem rne_nearest' (n q : Nat) :
+    2 * ((rne n q * 2 ^ q : Nat) - (n : Int)).natAbs ≤ 2 ^ q ∧
+    (2 * ((rne n q * 2 ^ q : Nat) - (n : Int)).natAbs = 2 ^ q → rne n q % 2 = 0) := by
+  obtain ⟨Q, hQ⟩ : ∃ Q, Q = 2 ^ q := ⟨_, rfl⟩
+  have hp : 0 < Q := by rw [hQ]; exact Nat.pos_of_ne_zero (by simp)
+  have hdm := Nat.div_add_mod n Q
+  have hr := Nat.mod_lt n hp
+  unfold rne
+  simp only [← hQ]
+  obtain ⟨d, hd⟩ : ∃ d, d = n / Q := ⟨_, rfl⟩
+  obtain ⟨r, hr'⟩ : ∃ r, r = n % Q := ⟨_, rfl⟩
+  rw [← hd, ← hr'] at hdm ⊢
+  rw [← hr'] at hr
+  obtain ⟨t, ht⟩ : ∃ t, t = Q * d := ⟨_, rfl⟩
+  rw [← ht] at hdm
+  split
+  · rename_i hc
+    have e1 : (d + 1) * Q = t + Q := by rw [ht]; ring
+    rw [e1]
+    constructor
+    · omega
+    · intro he
+      rcases hc with hc | hc
+      · omega
+      · omega
+  · rename_i hc
+    have e1 : d * Q = t := by rw [ht]; ring
+    rw [e1]
+    constructor
+    · omega
+    · intro he
+      have : 2 * r = Q := by omega
+      by_contra hodd
+      exact hc (Or.inr ⟨this, by omega⟩)
+
+
+
+
+
+
+
+/-- Splitting a pattern into its three fields. -/
+theorem fields (E M p : Nat) (hp : p < 2 ^ (1 + E + M)) :
+    p = (p / 2 ^ (E + M)) * 2 ^ (E + M) + (p / 2 ^ M % 2 ^ E) * 2 ^ M + p % 2 ^ M ∧
+    p / 2 ^ (E + M) < 2 ∧ p / 2 ^ M % 2 ^ E < 2 ^ E ∧ p % 2 ^ M < 2 ^ M := by
+  have hA : 0 < 2 ^ M := Nat.pos_of_ne_zero (by simp)
+  have hB : 0 < 2 ^ E := Nat.pos_of_ne_zero (by simp)
+  have h1 := Nat.div_add_mod p (2 ^ M)
+  have h2 := Nat.div_add_mod (p / 2 ^ M) (2 ^ E)
+  have h3 : p / 2 ^ M / 2 ^ E = p / 2 ^ (E + M) := by
+    rw [Nat.div_div_eq_div_mul, ← Nat.pow_add, Nat.add_comm]
+  rw [h3] at h2
+  refine ⟨?_, ?_, Nat.mod_lt _ hB, Nat.mod_lt _ hA⟩
+  · have : 2 ^ (E + M) = 2 ^ E * 2 ^ M := Nat.pow_add 2 E M
+    rw [this]
+    calc p = 2 ^ M * (p / 2 ^ M) + p % 2 ^ M := h1.symm
+      _ = 2 ^ M * (2 ^ E * (p / 2 ^ (E + M)) + p / 2 ^ M % 2 ^ E) + p % 2 ^ M := by rw [h2]
+      _ = _ := by ring_nf
+  · rw [Nat.div_lt_iff_lt_mul (Nat.pos_of_ne_zero (by simp))]
+    calc p < 2 ^ (1 + E + M) := hp
+      _ = 2 * 2 ^ (E + M) := by rw [Nat.add_assoc, Nat.pow_add]
+
+/-- The magnitude bits of a finite value read from fields `(ex, man)` re-encode to `ex·2^M + man`. -/
+theorem encodeMag_fields (f : Fmt) (hf : f.ok) (ex man : Nat) (hex : ex < 2 ^ f.E - 1) (hman : man < 2 ^ f.M) :
+    encodeMag f (if ex = 0 then man * 2 ^ f.q0 else (2 ^ f.M + man) * 2 ^ (f.q0 + ex - 1)) = ex * 2 ^ f.M + man := by
+  obtain ⟨hE1, hE2, hM1, hM2⟩ := hf
+  have hA : 0 < 2 ^ f.M := Nat.pos_of_ne_zero (by simp)
+  have hB : 2 ≤ 2 ^ f.E := by
+    calc 2 = 2 ^ 1 := rfl
+      _ ≤ 2 ^ f.E := Nat.pow_le_pow_right (by omega) hE1
+  unfold encodeMag Fmt.infMag
+  have hinf : ex * 2 ^ f.M + man < (2 ^ f.E - 1) * 2 ^ f.M := by
+    calc ex * 2 ^ f.M + man < ex * 2 ^ f.M + 2 ^ f.M := by omega
+      _ = (ex + 1) * 2 ^ f.M := by ring
+      _ ≤ (2 ^ f.E - 1) * 2 ^ f.M := Nat.mul_le_mul_right _ (by omega)
+  by_cases h0 : ex = 0
+  · subst h0
+    simp only [if_true]
+    have hq : max f.q0 (Nat.log2 (man * 2 ^ f.q0) - f.M) = f.q0 := by
+      by_cases hm : man = 0
+      · subst hm; simp
+      · rw [log2_mul_pow _ _ hm]
+        have := log2_lt_of_lt man f.M hm hman
+        omega
+    simp only [hq, Nat.sub_self, Nat.zero_mul, Nat.zero_add, rne_mul_pow]
+    exact Nat.min_eq_left (by omega)
+  · simp only [if_neg h0]
+    have hlog : Nat.log2 ((2 ^ f.M + man) * 2 ^ (f.q0 + ex - 1)) = f.M + (f.q0 + ex - 1) := by
+      rw [log2_mul_pow _ _ (by omega), log2_of_range (2 ^ f.M + man) f.M (by omega) (by rw [Nat.pow_succ]; omega)]
+    have hq : max f.q0 (Nat.log2 ((2 ^ f.M + man) * 2 ^ (f.q0 + ex - 1)) - f.M) = f.q0 + ex - 1 := by
+      rw [hlog]; omega
+    simp only [hq, rne_mul_pow]
+    have he : (f.q0 + ex - 1 - f.q0) * 2 ^ f.M + (2 ^ f.M + man) = ex * 2 ^ f.M + man := by
+      have : f.q0 + ex - 1 - f.q0 = ex - 1 := by omega
+      rw [this]
+      obtain ⟨e', rfl⟩ : ∃ e', ex = e' + 1 := ⟨ex - 1, by omega⟩
+      simp only [Nat.add_sub_cancel]; ring
+    rw [he]
+    exact Nat.min_eq_left (by omega)
+
+theorem encode_decode' (f : Fmt) (hf : f.ok) (p : Nat) (hp : p < 2 ^ f.width) (hn : decode f p ≠ .nan) :
+    encode f (decode f p) = p := by
+  obtain ⟨hsplit, hs, hex, hman⟩ := fields f.E f.M p hp
+  obtain ⟨s, hs'⟩ : ∃ s, s = p / 2 ^ (f.E + f.M) := ⟨_, rfl⟩
+  obtain ⟨ex, hex'⟩ : ∃ ex, ex = p / 2 ^ f.M % 2 ^ f.E := ⟨_, rfl⟩
+  obtain ⟨man, hman'⟩ : ∃ man, man = p % 2 ^ f.M := ⟨_, rfl⟩
+  have hsign : (if decide (s % 2 = 1) = true then f.signBit else 0) = s * 2 ^ (f.E + f.M) := by
+    unfold Fmt.signBit
+    rw [← hs'] at hs
+    have : s = 0 ∨ s = 1 := by omega
+    rcases this with rfl | rfl <;> simp
+  unfold decode at hn ⊢
+  simp only [← hs', ← hex', ← hman'] at hn hsplit hs hex hman ⊢
+  by_cases hinf : ex = 2 ^ f.E - 1
+  · rw [if_pos hinf] at hn ⊢
+    by_cases hm0 : man = 0
+    · rw [if_pos hm0]
+      simp only [encode, hsign, Fmt.infMag]
+      rw [hsplit, hinf, hm0]; ring
+    · rw [if_neg hm0] at hn; exact absurd rfl hn
+  · rw [if_neg hinf]
+    have hlt : ex < 2 ^ f.E - 1 := by omega
+    have hmag := encodeMag_fields f hf ex man hlt hman
+    by_cases h0 : ex = 0
+    · rw [if_pos h0]
+      rw [if_pos h0] at hmag
+      simp only [encode, hsign, hmag]
+      rw [hsplit]; ring
+    · rw [if_neg h0]
+      rw [if_neg h0] at hmag
+      simp only [encode, hsign, hmag]
+      rw [hsplit]; ring
+
+
+
+
+
+
+
+/-- Reading the three fields back from a pattern assembled from them. -/
+theorem fields_of (E M s ex man : Nat) (hex : ex < 2 ^ E) (hman : man < 2 ^ M) :
+    (s * 2 ^ (E + M) + ex * 2 ^ M + man) / 2 ^ (E + M) = s ∧
+    (s * 2 ^ (E + M) + ex * 2 ^ M + man) / 2 ^ M % 2 ^ E = ex ∧
+    (s * 2 ^ (E + M) + ex * 2 ^ M + man) % 2 ^ M = man := by
+  have hA : 0 < 2 ^ M := Nat.pos_of_ne_zero (by simp)
+  have hB : 0 < 2 ^ E := Nat.pos_of_ne_zero (by simp)
+  have hS : 2 ^ (E + M) = 2 ^ E * 2 ^ M := Nat.pow_add 2 E M
+  have e1 : s * 2 ^ (E + M) + ex * 2 ^ M + man = man + 2 ^ M * (s * 2 ^ E + ex) := by rw [hS]; ring
+  have hdiv : (s * 2 ^ (E + M) + ex * 2 ^ M + man) / 2 ^ M = s * 2 ^ E + ex := by
+    rw [e1, Nat.add_mul_div_left _ _ hA, Nat.div_eq_of_lt hman, Nat.zero_add]
+  refine ⟨?_, ?_, ?_⟩
+  · have hS' : 2 ^ (E + M) = 2 ^ M * 2 ^ E := by rw [hS, Nat.mul_comm]
+    conv => lhs; rw [hS']
+    rw [← Nat.div_div_eq_div_mul, ← hS', hdiv]
+    rw [Nat.add_comm, Nat.add_mul_div_right _ _ hB, Nat.div_eq_of_lt hex, Nat.zero_add]
+  · rw [hdiv, Nat.add_comm, Nat.add_mul_mod_self_right, Nat.mod_eq_of_lt hex]
+  · rw [e1, Nat.add_mul_mod_self_left, Nat.mod_eq_of_lt hman]
+
+/-- `n` units of 2^-1074 are a binary64 value: at most 53 significant bits, not too large. -/
+def Rep64 (n : Nat) : Prop := n = 0 ∨ ∃ a j, n = a * 2 ^ j ∧ 0 < a ∧ a < 2 ^ 53 ∧ Nat.log2 a + j ≤ 2097
+
+theorem f64_consts : f64.E = 11 ∧ f64.M = 52 ∧ f64.q0 = 0 ∧ f64.infMag = 2047 * 2 ^ 52 ∧ f64.signBit = 2 ^ 63 := by
+  decide
+
+theorem encodeMag_eq (f : Fmt) (n : Nat) :
+    encodeMag f n = min ((max f.q0 (Nat.log2 n - f.M) - f.q0) * 2 ^ f.M + rne n (max f.q0 (Nat.log2 n - f.M))) f.infMag := rfl
+
+theorem decode_encodeMag64 (n : Nat) (hrep : Rep64 n) (neg : Bool) :
+    decode f64 ((if neg then f64.signBit else 0) + encodeMag f64 n) = .fin neg n := by
+  obtain ⟨hE, hM, hq0, hinf, hsb⟩ := f64_consts
+  obtain ⟨s, hs⟩ : ∃ s : Nat, s = if neg then 1 else 0 := ⟨_, rfl⟩
+  have hsign : (if neg = true then f64.signBit else 0) = s * 2 ^ (11 + 52) := by
+    rw [hsb, hs]; cases neg <;> simp
+  have hnegs : decide (s % 2 = 1) = neg := by rw [hs]; cases neg <;> simp
+  -- the magnitude as (ex, man) fields
+  have key : ∃ ex man, ex < 2 ^ 11 - 1 ∧ man < 2 ^ 52 ∧ encodeMag f64 n = ex * 2 ^ 52 + man ∧
+      n = if ex = 0 then man * 2 ^ 0 else (2 ^ 52 + man) * 2 ^ (0 + ex - 1) := by
+    rw [encodeMag_eq, hq0, hM, hinf]
+    by_cases hk : Nat.log2 n < 52
+    · have hn : n < 2 ^ 52 := by
+        calc n < 2 ^ (Nat.log2 n + 1) := Nat.lt_log2_self
+          _ ≤ 2 ^ 52 := Nat.pow_le_pow_right (by omega) (by omega)
+      refine ⟨0, n, by norm_num, hn, ?_, by simp⟩
+      have hq : max 0 (Nat.log2 n - 52) = 0 := by omega
+      rw [hq]
+      have : rne n 0 = n := by have := rne_mul_pow n 0; simpa using this
+      rw [this]
+      simp only [Nat.sub_self, Nat.zero_mul, Nat.zero_add]
+      exact Nat.min_eq_left (by norm_num at hn ⊢; omega)
+    · have hn0 : n ≠ 0 := by rintro rfl; simp at hk
+      rcases hrep with rfl | ⟨a, j, rfl, ha0, ha, hlog⟩
+      · exact absurd rfl hn0
+      · have hla : Nat.log2 a ≤ 52 := by
+          have := log2_lt_of_lt a 53 (by omega) ha; omega
+        rw [log2_mul_pow a j (by omega)] at hk ⊢
+        obtain ⟨q, hq⟩ : ∃ q, q = Nat.log2 a + j - 52 := ⟨_, rfl⟩
+        have hqj : q ≤ j := by omega
+        have hmax : max 0 (Nat.log2 a + j - 52) = q := by omega
+        rw [hmax]
+        -- n = d * 2^q with d = a * 2^(j - q) in [2^52, 2^53)
+        obtain ⟨d, hd⟩ : ∃ d, d = a * 2 ^ (j - q) := ⟨_, rfl⟩
+        have hnd : a * 2 ^ j = d * 2 ^ q := by
+          rw [hd, Nat.mul_assoc, ← Nat.pow_add]; congr 2; omega
+        have hdlog : Nat.log2 d = 52 := by
+          rw [hd, log2_mul_pow a _ (by omega)]; omega
+        have hd0 : d ≠ 0 := by rw [hd]; exact Nat.mul_ne_zero (by omega) (by simp)
+        have hd1 : 2 ^ 52 ≤ d := by have := Nat.log2_self_le hd0; rwa [hdlog] at this
+        have hd2 : d < 2 ^ 53 := by have := @Nat.lt_log2_self d; rwa [hdlog] at this
+        rw [hnd, rne_mul_pow]
+        refine ⟨q + 1, d - 2 ^ 52, by norm_num; omega, by norm_num at hd1 hd2 ⊢; omega, ?_, ?_⟩
+        · have : (q - 0) * 2 ^ 52 + d = (q + 1) * 2 ^ 52 + (d - 2 ^ 52) := by
+            rw [Nat.sub_zero, Nat.add_mul]; omega
+          rw [this]
+          apply Nat.min_eq_left
+          have hq1 : q + 1 ≤ 2046 := by omega
+          calc (q + 1) * 2 ^ 52 + (d - 2 ^ 52) ≤ 2046 * 2 ^ 52 + (d - 2 ^ 52) :=
+                Nat.add_le_add_right (Nat.mul_le_mul_right _ hq1) _
+            _ ≤ 2047 * 2 ^ 52 := by norm_num at hd1 hd2 ⊢; omega
+        · rw [if_neg (by omega)]
+          have : 2 ^ 52 + (d - 2 ^ 52) = d := by omega
+          rw [this]; simp
+  obtain ⟨ex, man, hex, hman, hmag, hn⟩ := key
+  rw [hsign, hmag, ← Nat.add_assoc]
+  obtain ⟨h1, h2, h3⟩ := fields_of 11 52 s ex man (by omega) hman
+  unfold decode
+  simp only [hE, hM, hq0, h1, h2, h3, hnegs]
+  rw [if_neg (by omega)]
+  by_cases h0 : ex = 0
+  · rw [if_pos h0]; rw [if_pos h0] at hn; rw [← hn]
+  · rw [if_neg h0]; rw [if_neg h0] at hn; rw [← hn]
+
+
+
+
+
+
+
+
+theorem rep_of_decode (f : Fmt) (hf : f.ok) (p : Nat) (neg : Bool) (n : Nat) (h : decode f p = .fin neg n) :
+    Rep64 n := by
+  obtain ⟨hE1, hE2, hM1, hM2⟩ := hf
+  have hA : 0 < 2 ^ f.M := Nat.pos_of_ne_zero (by simp)
+  have hB : 0 < 2 ^ f.E := Nat.pos_of_ne_zero (by simp)
+  obtain ⟨ex, hex'⟩ : ∃ ex, ex = p / 2 ^ f.M % 2 ^ f.E := ⟨_, rfl⟩
+  obtain ⟨man, hman'⟩ : ∃ man, man = p % 2 ^ f.M := ⟨_, rfl⟩
+  have hex : ex < 2 ^ f.E := by rw [hex']; exact Nat.mod_lt _ hB
+  have hman : man < 2 ^ f.M := by rw [hman']; exact Nat.mod_lt _ hA
+  -- the constants of the format
+  obtain ⟨T, hT⟩ : ∃ T, T = 2 ^ (f.E - 1) := ⟨_, rfl⟩
+  have hT2 : 2 ^ f.E = 2 * T := by
+    rw [hT, ← Nat.pow_succ']; congr 1; omega
+  have hT3 : T ≤ 1024 := by
+    rw [hT]; calc 2 ^ (f.E - 1) ≤ 2 ^ 10 := Nat.pow_le_pow_right (by omega) (by omega)
+      _ = 1024 := by norm_num
+  have hT1 : 1 ≤ T := by rw [hT]; exact Nat.pos_of_ne_zero (by simp)
+  have hbias : f.bias = T - 1 := by rw [hT]; rfl
+  have hq0 : f.q0 = 1075 - (T - 1) - f.M := by unfold Fmt.q0; rw [hbias]
+  have hM53 : 2 ^ (f.M + 1) ≤ 2 ^ 53 := Nat.pow_le_pow_right (by omega) (by omega)
+  unfold decode at h
+  simp only [← hex', ← hman'] at h
+  split at h
+  · split at h <;> cases h
+  · split at h
+    · cases h
+      by_cases hm : man = 0
+      · left; rw [hm]; simp
+      · right
+        refine ⟨man, f.q0, rfl, by omega, ?_, ?_⟩
+        · calc man < 2 ^ f.M := hman
+            _ ≤ 2 ^ (f.M + 1) := Nat.pow_le_pow_right (by omega) (by omega)
+            _ ≤ 2 ^ 53 := hM53
+        · have := log2_lt_of_lt man f.M hm hman
+          omega
+    · cases h
+      right
+      rename_i hinf h0
+      refine ⟨2 ^ f.M + man, f.q0 + ex - 1, rfl, by omega, ?_, ?_⟩
+      · calc 2 ^ f.M + man < 2 ^ (f.M + 1) := by rw [Nat.pow_succ]; omega
+          _ ≤ 2 ^ 53 := hM53
+      · rw [log2_of_range (2 ^ f.M + man) f.M (by omega) (by rw [Nat.pow_succ]; omega)]
+        omega
+
+theorem decode64_qnan : decode f64 (qnan f64) = .nan := by decide +kernel
+theorem decode64_inf : ∀ neg : Bool, decode f64 ((if neg then f64.signBit else 0) + f64.infMag) = .inf neg := by
+  decide +kernel
+
+theorem widen_exact' (f : Fmt) (hf : f.ok) (p : Nat) :
+    decode f64 (encode f64 (decode f p)) = decode f p := by
+  cases h : decode f p with
+  | nan => exact decode64_qnan
+  | inf neg => exact decode64_inf neg
+  | fin neg n => exact decode_encodeMag64 n (rep_of_decode f hf p neg n h) neg
+
+
+/-! ### the float dtypes -/
+
+def stdFmt (f : Fmt) : Prop := f = f16 ∨ f = f32 ∨ f = f64
+
+theorem stdFmt_ok (f : Fmt) (h : stdFmt f) : f.ok := by
+  rcases h with rfl | rfl | rfl <;> (unfold Fmt.ok f16 f32 f64; decide)
+
+theorem bf16_ok : bf16.ok := by unfold Fmt.ok bf16; decide
+
+theorem packFloat_unpackFloat' (f : Fmt) (hf : f.ok) (b : Bits) (hb : b.length = f.width) (p : Nat)
+    (h : unpackFloat f b = some p) : packFloat f p = b := by
+  unfold unpackFloat at h
+  have hlt : bitsToNat b < 2 ^ f.width := by rw [← hb]; exact bitsToNat_lt b
+  unfold packFloat
+  cases hv : decode f (bitsToNat b) with
+  | nan => rw [hv] at h; cases h
+  | inf neg =>
+    rw [hv] at h; simp only [Option.some.injEq] at h
+    rw [← h, ← hv, widen_exact' f hf, encode_decode' f hf _ hlt (by rw [hv]; simp), ← hb]
+    exact natToBits_bitsToNat b
+  | fin neg n =>
+    rw [hv] at h; simp only [Option.some.injEq] at h
+    rw [← h, ← hv, widen_exact' f hf, encode_decode' f hf _ hlt (by rw [hv]; simp), ← hb]
+    exact natToBits_bitsToNat b
+
+theorem f64_ok : f64.ok := by unfold Fmt.ok f64; decide
+
+theorem unpackFloat_packFloat_f64' (p : Nat) (hp : p < 2 ^ 64) (hn : decode f64 p ≠ .nan) :
+    unpackFloat f64 (packFloat f64 p) = some p := by
+  have hw : f64.width = 64 := by decide
+  unfold unpackFloat packFloat
+  rw [encode_decode' f64 f64_ok p (by rw [hw]; exact hp) hn, hw, bitsToNat_natToBits 64 p hp]
+  cases hv : decode f64 p with
+  | nan => exact absurd hv hn
+  | inf neg => simp only; rw [← hv, encode_decode' f64 f64_ok p (by rw [hw]; exact hp) hn]
+  | fin neg n => simp only; rw [← hv, encode_decode' f64 f64_ok p (by rw [hw]; exact hp) hn]
+
 end BM.C02.Ieee
